@@ -13,6 +13,7 @@ Template language (see DESIGN.md section 2):
      //@ spec                      following lines go between signature and body
      //@ loop <k>                  following lines go in front of the body '{' of loop k
      //@ enter <k> / leave <k>     first / last thing inside the body of loop k
+     //@ exit <k>                  first thing after loop k (a position that does not depend on the text of the next statement)
      //@ before <n> <anchor>       in front of the n-th source line containing <anchor>
      //@ after <n> <anchor>        behind that line
      //@ top                       at the very beginning of the function body
@@ -683,6 +684,9 @@ def _splice_after_rules(text, src_text, spec, log, where, degraded=False):
         elif kind == 'leave':
             lint_ghost(lines, where)
             add(sig[bc].start, lines, 'overlay:leave%d' % kk)
+        elif kind == 'exit':
+            lint_ghost(lines, where)
+            add(sig[bc].end, lines, 'overlay:exit%d' % kk)
     # ghost iterator names for `for` loops:  for P in E  ->  for P in name: E
     for kk, nm in spec.get('iters', []):
         if degraded and (kk < 1 or kk > len(loops) or sig[loops[kk - 1][0]].text != 'for'):
@@ -921,7 +925,7 @@ def parse_template(path):
                 elif cmd == 'iter':
                     kk, nm = arg.split()
                     item.setdefault('iters', []).append((int(kk), nm))
-                elif cmd in ('loop', 'enter', 'leave'):
+                elif cmd in ('loop', 'enter', 'leave', 'exit'):
                     cur = []
                     item['loopins'].append((cmd, int(arg), cur))
                 elif cmd in ('before', 'after'):
